@@ -26,6 +26,7 @@ type ConcJob struct {
 	MaxRuns  int               `json:"maxRuns"`
 	Seed     int64             `json:"seed"`
 	Graph    bool              `json:"graph"`  // record the abstract state graph (MockImpl conformance)
+	AllGates bool              `json:"allGates"` // also preempt at locks and records of methods outside the scenario
 	Replay   [][]int           `json:"replay"` // explicit schedules (goroutine ids per step) instead of exploration
 }
 
@@ -64,6 +65,7 @@ type ConcResult struct {
 	HeldAtCb   []string       `json:"heldAtCb"`
 	Fatal      []string       `json:"fatal"`
 	ForeignG   int            `json:"foreignG"`
+	Stale      []string       `json:"stale"`
 	NilRec     bool           `json:"nilRec"`
 	Infra      string         `json:"infra,omitempty"`
 	Edges      []string       `json:"edges,omitempty"`
@@ -91,6 +93,8 @@ type concRunner struct {
 	heldCb  map[string]bool
 	foreign int
 	runFat  []string
+	snaps   []held
+	stale   map[string]bool
 }
 
 func recKey(fps []string) string { return "(" + strings.Join(fps, ",") + ")" }
@@ -107,7 +111,7 @@ func newConcRunner(e *Entry, job *ConcJob) *concRunner {
 			}
 		}
 	}
-	r.nilRec = probeNilRec(e)
+	r.nilRec, _ = probeNilRec(e)
 	r.res = &ConcResult{Mock: job.Mock, Scenario: job.Scenario, Histories: map[string]int{}, NilRec: r.nilRec}
 	return r
 }
@@ -189,10 +193,38 @@ func (r *concRunner) setup() error {
 	r.heldCb = map[string]bool{}
 	r.foreign = 0
 	r.runFat = nil
+	r.snaps = nil
+	r.stale = map[string]bool{}
 	s := &Sched{toSched: make(chan *G), locks: map[unsafe.Pointer]*lockState{}, flags: map[string]bool{}, races: map[string]bool{}}
 	s.names = r.lockName
 	s.mem = r.mem
 	s.trace = r.job.Graph
+	if !r.job.AllGates {
+		s.focusLock = func(l *lockState) bool {
+			if !strings.HasPrefix(l.name, "lock") {
+				return true
+			}
+			return l.name == "lockA" || l.name == "lockB" || l.name == "lockC"
+		}
+		type rng struct{ lo, hi uintptr }
+		var rs []rng
+		for _, x := range r.amap {
+			if f, ok := r.callsField(x); ok && f.CanAddr() {
+				rs = append(rs, rng{f.UnsafeAddr(), f.UnsafeAddr() + f.Type().Size()})
+			}
+		}
+		s.focusAddr = func(addr, size uintptr) bool {
+			if len(rs) == 0 {
+				return true
+			}
+			for _, x := range rs {
+				if addr < x.hi && x.lo < addr+size {
+					return true
+				}
+			}
+			return false
+		}
+	}
 	r.s = s
 	theSched = s
 	for _, x := range r.e.Methods {
@@ -307,6 +339,7 @@ func (r *concRunner) exec(g *G, op *POp, id int, inv int) {
 		a.Res = r.s.seq
 		if outcome == "ret" && len(out) == 1 && out[0].Kind() == reflect.Slice {
 			a.raw = recordsFP(out[0])
+			r.snaps = append(r.snaps, held{out[0], a.raw, fmt.Sprintf("%sCalls() of g%d op %d", op.M, g.id, g.pc)})
 		} else {
 			r.runFat = append(r.runFat, x+"Calls() "+outcome)
 		}
@@ -574,6 +607,16 @@ func (r *concRunner) runOnce(choices []int, visited map[string]bool, byID []int)
 // flush folds one finished run into the result.
 func (r *concRunner) flush(deadlock bool, blocked []string) {
 	res := r.res
+	// a slice an accessor returned must never change afterwards (C04), also
+	// when other goroutines reset and call meanwhile
+	for _, h := range r.snaps {
+		if now := recordsFP(h.v); !equalRecs(now, h.orig) {
+			k := fmt.Sprintf("slice returned by %s changed after it was returned (%d -> %d records or different contents)", h.what, len(h.orig), len(now))
+			if len(res.Stale) < 10 && !contains(res.Stale, k) {
+				res.Stale = append(res.Stale, k)
+			}
+		}
+	}
 	for k := range r.s.races {
 		if len(res.Races) < 20 && !contains(res.Races, k) {
 			res.Races = append(res.Races, k)
